@@ -6,6 +6,7 @@ package vipv6
 
 import (
 	"net"
+	"net/netip"
 	"time"
 
 	"golang.org/x/net/ipv6"
@@ -33,11 +34,11 @@ func (p *PacketConn) ReadBatch(ms []Message, flags int) (int, error) {
 	if len(ms) == 0 {
 		return 0, nil
 	}
-	n, from, err := p.c.ReadFromUDPAddrPort(ms[0].Buffers[0])
+	n, from, to, err := p.c.Recv2(ms[0].Buffers[0])
 	if err != nil {
 		return 0, err
 	}
-	ms[0].N, ms[0].NN, ms[0].Addr = n, 0, net.UDPAddrFromAddrPort(from)
+	ms[0].N, ms[0].NN, ms[0].Addr = n, p.oob(ms[0].OOB, to), net.UDPAddrFromAddrPort(from)
 	p.ctr++
 	s := sim.S
 	key := "batch" + p.c.LocalAddr().String()
@@ -47,15 +48,24 @@ func (p *PacketConn) ReadBatch(ms []Message, flags int) (int, error) {
 	}
 	got := 1
 	for got < want {
-		n, from, ok := p.c.TryRecv(ms[got].Buffers[0])
+		n, from, to, ok := p.c.TryRecv2(ms[got].Buffers[0])
 		if !ok {
 			break
 		}
-		ms[got].N, ms[got].NN, ms[got].Addr = n, 0, net.UDPAddrFromAddrPort(from)
+		ms[got].N, ms[got].NN, ms[got].Addr = n, p.oob(ms[got].OOB, to), net.UDPAddrFromAddrPort(from)
 		got++
 	}
 	if got > 1 {
 		s.Probe("udp_batch_gt1")
 	}
 	return got, nil
+}
+
+// oob fills the ancillary data of one message (IP_PKTINFO with the address
+// the datagram was sent to) when the socket asked for it.
+func (p *PacketConn) oob(buf []byte, to netip.Addr) int {
+	if !p.c.PktInfo() || vnet.MakePktInfo == nil || !to.IsValid() {
+		return 0
+	}
+	return copy(buf, vnet.MakePktInfo(to))
 }
